@@ -604,7 +604,7 @@ impl Check for C15 {
     }
     fn run(case: &C15Case, ctx: &Ctx) -> Result<CaseInfo, Violation> {
         match case.cfg.hasher {
-            HasherKind::Blake3 => run_case::<B3>(case, &ctx.scratch),
+            HasherKind::Blake3 | HasherKind::TailLabel => run_case::<B3>(case, &ctx.scratch),
             HasherKind::Sha2 => run_case::<S2>(case, &ctx.scratch),
         }
     }
